@@ -122,12 +122,14 @@ def make_source(kind, data, fmt, tmpdir, rng):
 
         def cleanup_fifo():
             # release a writer still blocked in open() (the source was never opened) and wait for it
+            fd = None
             try:
-                fd = os.open(path, os.O_RDONLY | os.O_NONBLOCK)
-                os.close(fd)
+                fd = os.open(path, os.O_RDONLY | os.O_NONBLOCK)  # a reader exists until the writer is through (its data fits the pipe)
             except OSError:
                 pass
             th.join(5)
+            if fd is not None:
+                os.close(fd)
 
         return RawAudioSource(path, rate, width, channels), cleanup_fifo
     if kind == "stdin":
@@ -475,7 +477,7 @@ def run_shard(ctx):
             n = len(data) // (width * channels)
             ops = random_ops(rng, n, rate)
             # the same history on every kind, in lock-step on the same audio
-            for kind in ("buffer", "raw", "wav", "stdin", "stdin_file", "raw_fifo"):
+            for kind in ("buffer", "raw", "wav", "stdin", "stdin_file") + (("raw_fifo",) if i % 4 == 0 else ()):
                 run_history(ctx, kind, data, (rate, width, channels), ops, tmpdir, rng)
             if (i & 15) == 0 and ctx.out_of_time():
                 break
